@@ -661,3 +661,49 @@ def report_discipline(check: Check, repo: Repo, mods: list[Module], rule: str = 
                          (f"inside `except {unparse(bad.type) if bad.type is not None else ''}` (line {bad.lineno}) that does not re-raise: ValidationAbortedError is swallowed"
                           if bad is not None else "reported while the rule is being constructed, before validate() is ready to convert the abort"))
     check.note(report_error_calls=n)
+
+
+# -- ScalarLeafs partitions the named output kinds ----------------------------------------------------------
+
+
+def leafs_partition(check: Check, repo: Repo, rule: str = "LEAFS-PARTITION") -> None:
+    from rules.schema_rules import predicate_classes
+
+    check.rule(
+        rule,
+        "ScalarLeafsRule.enter_field decides over the five named output kinds: leaf kinds (Scalar, Enum) must "
+        "not have a selection, and *every other* kind (Object, Interface, Union) must have one. The arms that "
+        "demand a selection are either the unconditional else-side of the leaf test or kind tests that "
+        "together accept all three composite kinds; an arm that names Object and Interface only lets "
+        "`{ searchResult }` on a union through, and execution answers with an empty object",
+    )
+    fn = repo.func("validation.rules.scalar_leafs", "ScalarLeafsRule.enter_field")
+    preds = predicate_classes(repo)
+    composite = {"GraphQLObjectType", "GraphQLInterfaceType", "GraphQLUnionType"}
+    # the if whose test contains is_leaf_type(...)
+    chain = next((i for i in walk_body(fn) if isinstance(i, ast.If) and any(
+        isinstance(c, ast.Call) and call_name(c) == "is_leaf_type" for c in ast.walk(i.test))), None)
+    if chain is None:
+        raise AnalysisError("ScalarLeafsRule.enter_field: is_leaf_type test not found")
+    covered: set[str] = set()
+    cur: ast.If | None = chain
+    first = True
+    while cur is not None:
+        kinds = [call_name(c) for c in ast.walk(cur.test) if isinstance(c, ast.Call) and call_name(c) in preds]
+        if not first:
+            if not kinds:
+                covered |= composite  # an arm without a kind test takes every remaining kind
+            for k in kinds:
+                covered |= preds[k]
+        first = False
+        nxt = cur.orelse
+        if len(nxt) == 1 and isinstance(nxt[0], ast.If):
+            cur = nxt[0]
+        else:
+            if nxt:
+                covered |= composite
+            cur = None
+    missing = composite - covered
+    check.ob(rule, chain, "ScalarLeafsRule: the 'needs a selection' side accepts Object, Interface and Union", not missing,
+             "all composite kinds reach an arm that requires a selection" if not missing else
+             f"{sorted(missing)} reach no arm: a field of that kind may be selected without sub-fields")
